@@ -17,6 +17,13 @@ open Strophe Strophe.Conn Strophe.Lemmas.ConnC05
     terminator): the model prints the counter exactly, the code does so only with room for it -/
 theorem pin_h_buffers : ∀ n ∈ Gen.smHBufSizes, 11 ≤ n := by decide
 
+/-- the inbound counter is a 32-bit field, incremented plainly (it wraps, as XEP-0198 says) and
+    printed as an unsigned number — what `SmState.handledNr : UInt32`, `+ 1` and the decimal rendering
+    of the model are.  Behaviour at 2^31 / 2^32 stanzas is out of reach of any run: these statements
+    are translated from the source (`extract/gen_conn.py`) and pinned here. -/
+theorem pin_counters : Gen.smCounterBits = [32, 32] ∧ Gen.smHandledPlainIncr = true ∧
+    Gen.smHFormats = ["%u", "%u"] := by decide
+
 theorem handled_is_dispatch_count (jid pass : Option Bytes) (cert : Bool) (flags : Nat) (ops : List Op) :
     let c := exec (fresh jid pass cert flags) ops
     c.sm.handledNr = UInt32.ofNat (countSince c.rxLog) :=
